@@ -50,6 +50,10 @@ ASSUMPTIONS = [
     'Key(), HDKey(), bip38_decrypt()) are outside the Gallina model (the driver answers UNMODELLED: no curve arithmetic, no scrypt / '
     'AES there) and are judged by the independent oracle only: coordinates and encodings recomputed from the request, secret / '
     'compression flag / public bytes / WIF of the re-imported key recomputed from the exported secret and the frozen table',
+    'corpus/C12/bip38_special.json is FROZEN: BIP38 texts of special secrets produced once by the independent reference encryptor '
+    '(harness/props/c15.py ref_encrypt: BIP text, FIPS-197 AES, hashlib.scrypt, address version bytes of harness/spec_networks.py), '
+    'decrypted again by the reference decryptor when generated (corpus/C12/make_bip38_special.py); at run time only the shape of each '
+    'entry is checked and the secret / flag / public key / WIF expected from an import are recomputed from the request',
 ]
 RULE = ('exhaustive table stream (every network x private/public x witness type x multisig; every prefix x filter combination; '
         'all 256 version bytes), export-import round trips over all table rows with secrets having 0..8 leading zero bytes, '
@@ -59,7 +63,10 @@ RULE = ('exhaustive table stream (every network x private/public x witness type 
         'public-only imports in every form (compressed / uncompressed hex and bytes, point tuple, HDKey, xpub) of curve points whose x or y '
         'has 1..16, 24, 32, 48, 62 leading zero nibbles (built from the curve equation with a cube / square root) and of small secrets with '
         'y or x below 2^252 / 2^248, every public export read in both orders and imported again (pubrt); the BIP38 text of compressed and '
-        'uncompressed keys of every network through Key(), HDKey() and bip38_decrypt() (bip38rt); '
+        'uncompressed keys of every network through Key(), HDKey() and bip38_decrypt() (bip38rt); special secrets (tail 01 / 0101 / '
+        '010101 / 00 / 0100, first byte 00 / 80, leading zero bytes, 1, 2, n-1, public-key look-alikes) crossed with every route: WIF, hex, '
+        'bytes with and without marker (pool), FROZEN BIP38 texts of corpus/C12/bip38_special.json made by the independent reference '
+        'encryptor (bip38rt F) and the library\'s own encrypt -> import round trip of compressed keys with tail 01; '
         'a case is non-trivial when the implementation returns a value; distinct by request')
 
 # ---------------------------------------------------------------- independent protocol-level helpers
@@ -184,6 +191,10 @@ def secret_pool(rng, n_random):
             out.append(bytes([rng.randrange(1, 200)]) + bytes(rng.randrange(256) for _ in range(31 - len(last))) + last)
     out.append(b'\x02' + bytes(rng.randrange(256) for _ in range(30)) + b'\x01')   # looks like a public key + 01
     out.append(b'\x04' + bytes(rng.randrange(256) for _ in range(31)))
+    # first byte 80 (the mainnet WIF version byte) / 00 crossed with a tail that looks like the compression marker
+    out.append(b'\x80' + bytes(rng.randrange(256) for _ in range(30)) + b'\x01')
+    out.append(b'\x00' + bytes(rng.randrange(1, 256) for _ in range(29)) + b'\x01\x01')
+    out.append(b'\x80' + bytes(rng.randrange(256) for _ in range(31)))
     for _ in range(n_random):
         out.append(rng.randrange(1, N).to_bytes(32, 'big'))
     return [(s, ) + pubs(int.from_bytes(s, 'big')) for s in out]
@@ -426,7 +437,48 @@ def gen_cases(rng, tier):
             vias = 'khf' if big or ni % 4 == 0 else ('kh' if not comp else 'h')
             add('bip38_entry', 'bip38rt %s %s %s %s %s %s' % ('KH'[(ni + comp) % 2], n, hx(sec), tfs(comp), pw, vias))
     add('bip38_entry', 'bip38rt K bitcoin %s f %s nkh' % (hx(pool[2][0]), b'pw'.hex()))
+    # --- H2. SPECIAL secrets (tail 01 / 0101 / 00, first byte 00 / 80, 1, 2, n-1, public-key look-alikes) through BIP38:
+    #         (a) FROZEN texts of corpus/C12/bip38_special.json (independent reference encryptor, never /repo) imported through
+    #         Key() / HDKey() / bip38_decrypt();  (b) the library's own encrypt -> import round trip on pool secrets whose tail
+    #         is 01, compressed (the 32-byte result of the decryption must not be read as secret || compression marker)
+    corpus = bip38_corpus()
+    if big:
+        chosen = corpus
+    else:
+        must = [e for e in corpus if e['compressed'] and e['tag'] in ('last01', 'lead00_last0101', 'first80_last01', 'one')]
+        must += [e for e in corpus if (e['tag'], e['compressed']) in (('last01_b', False), ('n_minus_1', True), ('lead000000_last00', True))]
+        rest = [e for e in corpus if e not in must]
+        chosen = must + rng.sample(rest, 2)
+    for i, e in enumerate(chosen):
+        vias = 'khf' if big else ['k', 'h', 'kf', 'k', 'hk', 'k', 'h'][i % 7]
+        add('bip38_frozen', 'bip38rt F %s %s %s %s %s %s' % (e['network'], e['secret'], tfs(e['compressed']),
+                                                            e['password'].encode('utf-8').hex(), vias, e['bip38']))
+    tails = [i for i, p_ in enumerate(pool) if p_[0][-1] == 1 and p_[0] != (1).to_bytes(32, 'big')]
+    for j, si in enumerate(tails if big else rng.sample(tails, 2)):
+        pw = bytes(rng.choice(b'abcXYZ019 _') for _ in range(rng.randrange(1, 9))).hex()
+        add('bip38_tail01', 'bip38rt %s %s %s t %s %s' % ('KH'[j % 2], nets[(si + j) % len(nets)], hx(pool[si][0]), pw,
+                                                         'khf' if big else 'kh'[j % 2]))
     return cs
+
+
+_CORPUS = None
+
+
+def bip38_corpus():
+    """corpus/C12/bip38_special.json: BIP38 texts of special secrets made ONCE by the independent reference encryptor
+    (corpus/C12/make_bip38_special.py); checked here for shape only - the expected secret / flag / public key are recomputed
+    by check_bip38rt from the request"""
+    global _CORPUS
+    if _CORPUS is None:
+        path = os.path.join(os.path.dirname(os.path.abspath(__file__)), '..', '..', 'corpus', 'C12', 'bip38_special.json')
+        with open(path) as f:
+            _CORPUS = json.load(f)
+        for e in _CORPUS:
+            raw = b58dec(e['bip38'])
+            assert raw is not None and len(raw) == 43 and sha256d(raw[:-4])[:4] == raw[-4:] and \
+                raw[:3] == b'\x01\x42' + (b'\xe0' if e['compressed'] else b'\xc0') and e['network'] in table() and \
+                0 < int(e['secret'], 16) < N and len(e['secret']) == 64, 'corrupted corpus entry %s' % e['tag']
+    return _CORPUS
 
 
 def pref_tok(hexs, rng):
@@ -807,8 +859,14 @@ def check_bip38rt(t, out):
     exporter, net, sec, comp, pw, vias = t[1], t[2], unhx(t[3]), t[4] == 't', t[5], t[6]
     if not out.startswith('E='):
         return 'encrypt() of a valid private key fails: %s' % out[:60]
+    if exporter == 'F':
+        what0 = 'BIP38 text %s (reference encryption of secret %s, compressed=%s): ' % (t[7], sec.hex(), comp)
+    else:
+        what0 = ''
     parts = out.split(' ')
     e = parts[0][2:]
+    if exporter == 'F' and e != t[7]:
+        return 'adapter did not import the frozen text'
     raw = b58dec(e)
     if raw is None or len(raw) != 43 or raw[:2] != b'\x01\x42' or raw[2] != (0xe0 if comp else 0xc0):
         return 'BIP38 text %s of a%s key does not start 0142%s' % (e, ' compressed' if comp else 'n uncompressed', 'e0' if comp else 'c0')
@@ -818,6 +876,7 @@ def check_bip38rt(t, out):
         name, _, val = part.partition(':')
         d = dict(x.split('=', 1) for x in val.split(',') if '=' in x)
         what = {'k': 'Key(bip38, password=)', 'h': "HDKey(bip38, password=, witness_type='legacy')", 'f': 'bip38_decrypt()', 'n': 'Key(bip38, password=) without network'}[v]
+        what = what0 + what
         if not d:
             if v == 'n':
                 continue          # the version byte is not part of a BIP38 text: which network it lands on is not decided here
